@@ -50,7 +50,7 @@ func (c17) Cases(tier string, seed uint64) []fw.Case {
 	}
 	cs := make([]fw.Case, n)
 	for i := range cs {
-		cs[i] = fw.Case{Seed: fw.CaseSeed(seed, "C17", i), Name: fmt.Sprintf("deploy%d", i), Params: map[string]any{"nodes": 1 + i%3, "perShard": []int{1000, 12, 8, 20, 5}[i%5], "requests": 80}}
+		cs[i] = fw.Case{Seed: fw.CaseSeed(seed, "C17", i), Name: fmt.Sprintf("deploy%d", i), Params: map[string]any{"nodes": 1 + i%3, "perShard": []int{1000, 12, 100, 8, 150, 20, 5}[i%7], "requests": 80}}
 	}
 	return cs
 }
@@ -393,7 +393,7 @@ func (c17) RunCase(c fw.Case, env *fw.Env) *fw.CaseResult {
 	res := fw.NewResult()
 	nNodes := c.Int("nodes", 1)
 	perShard := int64(c.Int("perShard", 12))
-	plan := models.UserPlan{Name: "p", MaxCollections: 5, MaxCollectionPointCount: 100000, MaxPointSize: 1 << 16}
+	plan := models.UserPlan{Name: "p", MaxCollections: 5, MaxCollectionPointCount: 1500, MaxPointSize: 1 << 16}
 	nodes, servers, err := startProcCluster(env, nNodes, perShard, map[string]models.UserPlan{"P": plan}, nil)
 	defer func() {
 		for _, n := range nodes {
@@ -428,12 +428,20 @@ func (c17) RunCase(c fw.Case, env *fw.Env) *fw.CaseResult {
 	}
 	rng := rand.New(rand.NewPCG(c.Seed, 17))
 	nReq := c.Int("requests", 80)
+	forcedOp := -1
+	var forcedIds []uuid.UUID
 	step := func(i int, degraded bool, down map[string]bool, place map[uuid.UUID]string) bool {
 		entry := i % len(nodes)
 		if entry == r.downIdx {
 			entry = (entry + 1) % len(nodes)
 		}
-		col, err := r.col(entry)
+		col, err := c17col{}, error(nil)
+		if forcedIds != nil {
+			// a directed request must be the first thing this entry node sends after the outage
+			col = c17col{ShardIds: placeShards(place)}
+		} else {
+			col, err = r.col(entry)
+		}
 		if err != nil {
 			if degraded {
 				res.Stat("collection_reads_failed_while_node_down", 1)
@@ -447,6 +455,9 @@ func (c17) RunCase(c fw.Case, env *fw.Env) *fw.CaseResult {
 		r.topo = fmt.Sprintf("%dnodes-%dshards", len(nodes), len(col.ShardIds))
 		ids := r.m.SortedIds()
 		mix := func(n int) []uuid.UUID {
+			if forcedIds != nil {
+				return forcedIds
+			}
 			out := []uuid.UUID{}
 			seen := map[uuid.UUID]bool{}
 			for j := 0; j < n; j++ {
@@ -469,7 +480,42 @@ func (c17) RunCase(c fw.Case, env *fw.Env) *fw.CaseResult {
 			return out
 		}
 		cl := r.clients[entry]
-		switch op := rng.IntN(10); {
+		opDraw := rng.IntN(10)
+		if forcedOp >= 0 {
+			opDraw = forcedOp
+		}
+		switch op := opDraw; {
+		case op == 11: // an insert that would exceed the point quota, while a shard server is down
+			n := int(r.plan.MaxCollectionPointCount) - len(r.m.Docs) + 1
+			if n < 1 || n > 3000 {
+				break
+			}
+			pts := make([]model.Point, n)
+			for j := range pts {
+				pts[j] = model.Point{Id: r.g.NewId(), Doc: model.Doc{"n": int64(j)}}
+			}
+			resp := cl.Do("POST", "/v2/collections/"+r.colId+"/points", pointsBody(pts))
+			res.Stat("over_quota_inserts_while_degraded", 1)
+			res.Eval(true, r.topo, "over-quota-insert-degraded", i)
+			// refused means refused without side effects. Reads of the collection fail as a whole while a
+			// shard server is down, so the answer itself is judged: a 200 whose failed ranges do not
+			// cover the whole batch says that points beyond the quota were stored
+			if resp.Status == 200 {
+				failedPts := 0
+				if fr, ok := resp.JSON["failedRanges"].([]any); ok {
+					for _, e := range fr {
+						if m, ok := e.(map[string]any); ok {
+							st, _ := m["start"].(float64)
+							en, _ := m["end"].(float64)
+							failedPts += int(en - st)
+						}
+					}
+				}
+				if failedPts < n {
+					res.Violate("quota", "C17:over-quota-insert-stored-while-degraded", fmt.Sprintf("the collection holds %d points (quota %d); an insert of %d more via node %d while a shard server is down answered %d %s: %d of the new points were stored", len(r.m.Docs), r.plan.MaxCollectionPointCount, n, entry, resp.Status, trimBody(resp.Body), n-failedPts), nil)
+					return false
+				}
+			}
 		case op <= 2 && !degraded: // insert
 			n := 1 + rng.IntN(25)
 			pts := make([]model.Point, n)
@@ -618,24 +664,63 @@ func (c17) RunCase(c fw.Case, env *fw.Env) *fw.CaseResult {
 	// ---- one shard server down (a real process, killed)
 	if len(nodes) >= 2 && len(col.ShardIds) >= 2 && okp {
 		owner := cluster.RendezvousHash(r.user, servers, 1)[0]
+		// the node to lose: not the one holding the collection record, and among the others the one with
+		// the fewest shards (a server holding exactly one shard is the interesting case: nothing else of
+		// the same request tells the entry node that this server is gone)
 		downShards := map[string]bool{}
 		for i, n := range nodes {
 			if n.RPCAddr == owner {
 				continue // keep the collection record reachable
 			}
+			mine := map[string]bool{}
 			for _, sid := range col.ShardIds {
 				if cluster.RendezvousHash(sid, servers, 1)[0] == n.RPCAddr {
-					downShards[sid] = true
+					mine[sid] = true
 				}
 			}
-			if len(downShards) > 0 {
+			if len(mine) > 0 && (r.downIdx < 0 || len(mine) < len(downShards)) {
 				r.downIdx = i
-				break
+				downShards = mine
 			}
+		}
+		if len(downShards) == 1 {
+			res.Stat("deployments_where_the_dead_server_held_exactly_one_shard", 1)
 		}
 		if r.downIdx >= 0 && len(downShards) < len(col.ShardIds) {
 			nodes[r.downIdx].Kill()
 			res.Stat("deployments_with_a_node_killed", 1)
+			// give the surviving nodes' connections the moment they need to see the peer go away: the
+			// first request then meets a connection that is known to be dead, a later one a fresh dial
+			time.Sleep(time.Duration(50+rng.IntN(400)) * time.Millisecond)
+			// the very first request of every remaining entry node after the outage goes to points of a
+			// shard on the dead server (the entry nodes still hold a connection to it from before): it
+			// must be reported as failed because a shard did not answer, never as "not found"
+			var onDown []uuid.UUID
+			for _, id := range r.m.SortedIds() {
+				if downShards[place[id]] {
+					onDown = append(onDown, id)
+				}
+			}
+			if len(onDown) > 0 {
+				for e := 0; e < len(nodes); e++ {
+					if e == r.downIdx {
+						continue
+					}
+					forcedOp, forcedIds = []int{3, 4}[e%2], []uuid.UUID{onDown[rng.IntN(len(onDown))]}
+					ok := step((nReq/len(nodes)+200)*len(nodes)+e, true, downShards, place) // index congruent to e: entry node e
+					forcedOp, forcedIds = -1, nil
+					res.Stat("first_requests_after_the_outage_aimed_at_the_dead_server", 1)
+					if !ok {
+						return res
+					}
+				}
+			}
+			forcedOp = 11
+			okq := step(nReq+1000, true, downShards, place)
+			forcedOp = -1
+			if !okq {
+				return res
+			}
 			for i := 0; i < 25; i++ {
 				if !step(nReq+i, true, downShards, place) {
 					return res
